@@ -1,6 +1,6 @@
 //@ create src/cli/tests/verif_argv.rs
-//@ native verif_oracle_cli_flows "bounded stand-in / witness finder (C01, C02, C05, C07, C08, C13, C16): the built kestrel binary on the shipped two-key keyring: encrypt for every (from, to) in {alice, bob}^2 (incl. to self) with a 10-byte and a 70000-byte input, file length = 132 + 32 per chunk + plaintext, decrypt as each key succeeds exactly for `to`, returns the input and names `from`, a failed decrypt leaves no output file and an existing one intact; password mode round trip, rejection of a different password and of the password with a trailing space, tab or newline; change-pass keeps the public key, makes the old password fail, draws a new salt also when the new password equals the old one; two identical encrypt invocations differ in their ephemeral key"
-//@ native verif_oracle_argv_sweep "bounded stand-in / witness finder (C09, C13): the built kestrel binary (stdin closed, no controlling terminal, KESTREL_* unset, scratch working directory) on every argument vector of length <= 2 over 38 tokens (commands, options, aliases, paths of the shipped test keyring / data files, a missing path, an absent output path, empty and non-ASCII strings), every length-3 vector starting with a command word, and 60 complete command lines with one element dropped, duplicated or replaced: exit status is 0 or 1, never a signal or panic text; status 1 carries an 'Error:' line; a failed run never leaves a file at the absent output path"
+//@ native verif_oracle_cli_flows "bounded stand-in / witness finder (C01, C02, C05, C07, C08, C13, C16): the built kestrel binary on the shipped two-key keyring: encrypt for every (from, to) in {alice, bob}^2 (incl. to self) with a 10-byte and a 70000-byte input, file length = 132 + 32 per chunk + plaintext, decrypt as each key succeeds exactly for `to`, returns the input and names `from`, a failed decrypt leaves no output file and an existing one intact; with the last chunk of a two-chunk file corrupted the output holds exactly the first chunk and the exit status is 1; password mode round trip, rejection of a different password and of the password with a trailing space, tab or newline; change-pass keeps the public key, makes the old password fail, draws a new salt also when the new password equals the old one; two identical encrypt invocations differ in their ephemeral key"
+//@ native verif_oracle_argv_sweep "bounded stand-in / witness finder (C09, C13): the built kestrel binary (stdin closed, no controlling terminal, KESTREL_* unset, scratch working directory) on every argument vector of length <= 2 over 38 tokens (commands, options, aliases, paths of the shipped test keyring / data files, a missing path, an absent output path, empty and non-ASCII strings), every length-3 vector starting with a command word, and 7 complete command lines with each element in turn dropped, duplicated, or replaced by a missing path or one of 10 degenerate strings ('', '.', '..', '/', ...): exit status is 0 or 1, never a signal or panic text; status 1 carries an 'Error:' line; a failed run never leaves a file at the absent output path"
 // Native oracle on the REAL binary.  Never counted as proved; a disagreement is a concrete failing argument vector.
 use std::path::PathBuf;
 use std::process::{Command, Stdio};
@@ -67,6 +67,10 @@ fn verif_oracle_argv_sweep() {
             let mut v = f.clone(); v.remove(i); vectors.push(v);
             let mut v = f.clone(); v.insert(i, f[i].clone()); vectors.push(v);
             let mut v = f.clone(); v[i] = missing.clone(); vectors.push(v);
+            // path-like and degenerate strings in every position (path handling must not unwrap on them)
+            for odd in ["", ".", "..", "/", "./", "a/..", "-", "--", "\u{e9}", " "] {
+                let mut v = f.clone(); v[i] = odd.to_string(); vectors.push(v);
+            }
         }
     }
     let mut n = 0u32; let mut bad = 0u32; let mut first: Option<String> = None;
@@ -134,6 +138,22 @@ fn verif_oracle_cli_flows() {
             }
         }
     } } }
+    // ---- C13 / C04 at the CLI: a later chunk fails => exit 1 and the output holds exactly the authenticated prefix
+    for mode in ["key", "pass"] {
+        n += 1;
+        let ct = p("lct"); let out = p("lpt"); let _ = std::fs::remove_file(&ct); let _ = std::fs::remove_file(&out);
+        let e = if mode == "key" { verif_cmd(&dir, &["encrypt", &p("big"), "-t", "bob", "-f", "alice", "-o", &ct, "-k", &keyring, "--env-pass"], &[("KESTREL_PASSWORD", "alice")]) }
+                else { verif_cmd(&dir, &["password", "encrypt", &p("big"), "-o", &ct, "--env-pass"], &[("KESTREL_PASSWORD", "pw")]) };
+        let mut b = std::fs::read(&ct).unwrap_or_default();
+        if e.code != Some(0) || b.len() < 70000 { fail(&mut bad, &mut first, format!("{} mode: cannot produce the two-chunk file (exit {:?})", mode, e.code)); continue; }
+        let l = b.len(); b[l - 1] ^= 1; std::fs::write(&ct, &b).unwrap();
+        let d = if mode == "key" { verif_cmd(&dir, &["decrypt", &ct, "-t", "bob", "-o", &out, "-k", &keyring, "--env-pass"], &[("KESTREL_PASSWORD", "bob")]) }
+                else { verif_cmd(&dir, &["password", "decrypt", &ct, "-o", &out, "--env-pass"], &[("KESTREL_PASSWORD", "pw")]) };
+        let got = std::fs::read(&out).unwrap_or_default();
+        if d.code != Some(1) || got != big[..65536] {
+            fail(&mut bad, &mut first, format!("{} mode, last chunk of a two-chunk file corrupted: exit {:?}, output holds {} bytes, equal to the authenticated first chunk (65536 bytes): {}", mode, d.code, got.len(), got == big[..65536]));
+        }
+    }
     // ---- C07: two identical invocations never share the ephemeral key (file bytes 4..36)
     {
         n += 1;
